@@ -422,33 +422,88 @@ theorem noise_accept_iff (mp eps delta succ dims qs l1 l2 linf : K) :
       (0 < eps ∧ 0 < delta ∧ 0 ≤ succ ∧ succ ≤ 1 ∧ 0 < dims ∧ 0 < qs ∧ 0 < l1 ∧ 0 < l2 ∧ 0 < linf) := by
   unfold noiseParamsNew
   simp only [fieldArith]
-  by_cases a : eps ≤ 0
-  · simp [a] <;> (intros; linarith)
-  by_cases b : delta ≤ 0
-  · simp [a, b] <;> (intros; linarith)
+  by_cases a : 0 < eps
+  swap
+  · simp [a]
+  by_cases b : 0 < delta
+  swap
+  · simp [a, b]
   by_cases c : 0 ≤ succ ∧ succ ≤ 1
   swap
-  · simp only [a, b, decide_false, Bool.false_eq_true, if_false]
-    have : (decide (0 ≤ succ) && decide (succ ≤ 1)) = false := by
+  · have : (decide (0 ≤ succ) && decide (succ ≤ 1)) = false := by
       simp only [Bool.and_eq_false_iff, decide_eq_false_iff_not]; tauto
-    simp [this] <;> (intro _ _ h1 h2; exact absurd ⟨h1, h2⟩ c)
-  by_cases d : dims ≤ 0
-  · simp [a, b, c, d] <;> (intros; linarith)
-  by_cases e : qs ≤ 0
-  · simp [a, b, c, d, e] <;> (intros; linarith)
-  by_cases f : l1 ≤ 0
-  · simp [a, b, c, d, e, f] <;> (intros; linarith)
-  by_cases g : l2 ≤ 0
-  · simp [a, b, c, d, e, f, g] <;> (intros; linarith)
-  by_cases i : linf ≤ 0
-  · simp [a, b, c, d, e, f, g, i] <;> (intros; linarith)
+    simp [a, b, this] <;> (intro h1 h2; exact absurd ⟨h1, h2⟩ c)
+  by_cases d : 0 < dims
+  swap
+  · simp [a, b, c, d]
+  by_cases e : 0 < qs
+  swap
+  · simp [a, b, c, d, e]
+  by_cases f : 0 < l1
+  swap
+  · simp [a, b, c, d, e, f]
+  by_cases g : 0 < l2
+  swap
+  · simp [a, b, c, d, e, f, g]
+  by_cases i : 0 < linf
+  swap
+  · simp [a, b, c, d, e, f, g, i]
   simp [a, b, c, d, e, f, g, i]
-  exact ⟨not_le.mp a, not_le.mp b, not_le.mp d, not_le.mp e, not_le.mp f, not_le.mp g, not_le.mp i⟩
 
 /-- F4: the unfixed δ check rejected exactly the non-zero values. -/
 theorem noise_delta_unfixed_counterexample (mp delta : K) :
     noiseParamsDeltaCheckUnfixed (fieldArith K mp) delta = true ↔ delta ≠ 0 := by
   simp [noiseParamsDeltaCheckUnfixed, fieldArith]
+
+/-- **F13, any arithmetic** (in particular IEEE doubles, where every comparison with NaN is `false`): `NoiseParams::new`
+accepts iff each written comparison *holds* — `0 < x` for the seven range-checked parameters, `0 ≤ p ≤ 1` for
+`success_prob`.  Nothing is assumed about `lt`/`le` (no totality, no relation between them). -/
+theorem noise_accept_any {α : Type} (A : Arith α) (eps delta succ dims qs l1 l2 linf : α) :
+    noiseParamsNew A eps delta succ dims qs l1 l2 linf = .ok () ↔
+      (A.lt A.zero eps = true ∧ A.lt A.zero delta = true ∧ A.le A.zero succ = true ∧ A.le succ A.one = true ∧
+       A.lt A.zero dims = true ∧ A.lt A.zero qs = true ∧ A.lt A.zero l1 = true ∧ A.lt A.zero l2 = true ∧
+       A.lt A.zero linf = true) := by
+  unfold noiseParamsNew
+  cases A.lt A.zero eps <;> cases A.lt A.zero delta <;> cases A.le A.zero succ <;> cases A.le succ A.one <;>
+    cases A.lt A.zero dims <;> cases A.lt A.zero qs <;> cases A.lt A.zero l1 <;> cases A.lt A.zero l2 <;>
+    cases A.lt A.zero linf <;> simp
+
+/-- a value that is not greater than zero under the arithmetic's own `<` (NaN for IEEE doubles) is rejected in every
+range-checked slot, whatever the other parameters are. -/
+theorem noise_rejects_unordered {α : Type} (A : Arith α) (x : α) (hx : A.lt A.zero x = false)
+    (eps delta succ dims qs l1 l2 linf : α)
+    (hslot : eps = x ∨ delta = x ∨ dims = x ∨ qs = x ∨ l1 = x ∨ l2 = x ∨ linf = x) :
+    noiseParamsNew A eps delta succ dims qs l1 l2 linf ≠ .ok () := by
+  intro h
+  obtain ⟨h1, h2, _, _, h5, h6, h7, h8, h9⟩ := (noise_accept_any A eps delta succ dims qs l1 l2 linf).mp h
+  rcases hslot with rfl | rfl | rfl | rfl | rfl | rfl | rfl <;> simp_all
+
+/-- a three-point arithmetic with an unordered element (`none` plays NaN: every comparison with it is `false`,
+as for IEEE doubles) — the witness domain for F13. -/
+def nanArith : Arith (Option Int) :=
+  { zero := some 0, one := some 1, two := some 2,
+    add := fun a b => do pure ((← a) + (← b)), sub := fun a b => do pure ((← a) - (← b)),
+    mul := fun a b => do pure ((← a) * (← b)), div := fun a b => do pure ((← a) / (← b)),
+    lt := fun a b => match a, b with | some a, some b => decide (a < b) | _, _ => false,
+    le := fun a b => match a, b with | some a, some b => decide (a ≤ b) | _, _ => false,
+    eq := fun a b => match a, b with | some a, some b => decide (a = b) | _, _ => false,
+    minPos := some 1 }
+
+/-- F13 (unfixed code, checks written `x <= 0.0`): an unordered value passed the range check; the fixed check
+`!(x > 0.0)` rejects it.  On an ordered field the two forms agree (`noise_range_fixed_eq_unfixed`). -/
+theorem noise_range_unfixed_counterexample :
+    noiseRangeRejectUnfixed nanArith none = false ∧ noiseRangeReject nanArith none = true ∧
+    noiseParamsNew nanArith none (some 1) (some 1) (some 1) (some 1) (some 1) (some 1) (some 1)
+      = .error "epsilon must be > 0.0" := by decide
+
+theorem noise_range_fixed_eq_unfixed (mp x : K) :
+    noiseRangeReject (fieldArith K mp) x = noiseRangeRejectUnfixed (fieldArith K mp) x := by
+  simp only [noiseRangeReject, noiseRangeRejectUnfixed, fieldArith]
+  by_cases h : 0 < x
+  · simp [h, not_le.mpr h]
+  · simp [h, not_lt.mp h]
+
+example : nanArith.lt nanArith.zero none = false := rfl
 
 theorem binomial_eps_iff (mp maxEps eps : K) :
     binomialEpsOk (fieldArith K mp) maxEps eps = true ↔ (0 < eps ∧ eps ≤ maxEps) := by
